@@ -552,7 +552,8 @@ def auto_helpers(repo, rel, within, c_text, known, rewrite, ctype=None, max_roun
     seen = set(known)
     text = c_text
     for _ in range(max_rounds):
-        calls = [c for c in dict.fromkeys(re.findall(r'(?<![\w.>])([A-Z]\w*[a-z]\w*)\s*\(', text)) if c not in seen and c not in C_KEYWORDS]
+        scan = re.sub(r'"(?:[^"\\]|\\.)*"', '""', re.sub(r'/\*.*?\*/', ' ', text, flags=re.S))      # not in comments, not in string literals
+        calls = [c for c in dict.fromkeys(re.findall(r'(?<![\w.>])([A-Z]\w*[a-z]\w*)\s*\(', scan)) if c not in seen and c not in C_KEYWORDS]
         if not calls:
             break
         text = ''
